@@ -5,6 +5,7 @@ pub mod util;
 pub mod world;
 pub mod sim;
 pub mod coreview;
+pub mod monitors;
 pub mod job;
 pub mod alloc;
 pub mod autoalloc;
